@@ -80,7 +80,7 @@ ASSUMPTIONS = [
     'the pointer comparison',
 ]
 
-NP = {'f32': np.float32, 'f16': np.float16, 'i32': np.int32}
+NP = {'f32': np.float32, 'f16': np.float16, 'i32': np.int32, 'c64': np.complex64}
 U32, U16 = 2.0 ** -24, 2.0 ** -11
 TINY32, TINY16 = 2.0 ** -126, 2.0 ** -14
 
@@ -123,7 +123,12 @@ def build_tree(spec, it):
 
 
 def make_leaf(vals, lspec, leafkind):
-  arr = np.array(vals, dtype=NP[lspec['dtype']]).reshape(tuple(lspec['shape']))
+  if lspec['dtype'] == 'c64':
+    # (re, im) pairs
+    v = np.array(vals, dtype=np.float32)
+    arr = (v[0::2] + 1j * v[1::2]).astype(np.complex64).reshape(tuple(lspec['shape']))
+  else:
+    arr = np.array(vals, dtype=NP[lspec['dtype']]).reshape(tuple(lspec['shape']))
   if leafkind == 'jax':
     return jnp.array(arr)
   return arr
@@ -146,6 +151,10 @@ def make_weight(w, wkind):
     return np.float32(w)
   if wkind == 'jax32':
     return jnp.asarray(w, dtype=jnp.float32)
+  if wkind == 'np0d':
+    # a writable 0-d numpy array (e.g. np.array(num_examples)): unlike numpy
+    # scalars it can be modified in place
+    return np.array(w, dtype=np.float32)
   return float(w)
 
 
@@ -502,7 +511,22 @@ def run_clip(case):
   tree = make_tree(spec, case['leaves'], case['leafkind'])
   in_leaves, treedef = flat(tree)
   snaps = [snapshot(in_leaves)]
-  xs = [to64(l).ravel() for l in in_leaves]
+  # complex leaves count as (re, im) pairs of reals: a real scale acts on both
+  cplx = [np.asarray(l).dtype.kind == 'c' for l in in_leaves]
+
+  def reals(leaf, is_c, what):
+    a = np.asarray(leaf)
+    if is_c:
+      a = a.astype(np.complex128).ravel()
+      return np.concatenate([a.real, a.imag])
+    if a.dtype.kind == 'c':
+      # (a real leaf next to a complex one comes back with a complex dtype)
+      require(bool((a.imag == 0).all()), 'clip:direction_changed',
+              f'{what}: a real leaf came back with a non-zero imaginary part')
+      a = a.real
+    return a.astype(np.float64).ravel()
+
+  xs = [reals(l, c_, 'input') for l, c_ in zip(in_leaves, cplx)]
   x = np.concatenate(xs) if xs else np.zeros((0,))
   nelem = max(1, x.size)
   norm_in = float(np.sqrt(np.sum(x * x)))
@@ -517,7 +541,9 @@ def run_clip(case):
   check_outputs_alive('clip', out_leaves)
   for j, (o, i) in enumerate(zip(out_leaves, in_leaves)):
     require(np.asarray(o).shape == np.asarray(i).shape, 'clip:shape', f'leaf {j}')
-  o = np.concatenate([to64(l).ravel() for l in out_leaves]) if out_leaves else x
+  o = (np.concatenate([reals(l, c_, f'output leaf {j}')
+                       for j, (l, c_) in enumerate(zip(out_leaves, cplx))])
+       if out_leaves else x)
   require(np.isfinite(o).all(), 'clip:nonfinite',
           lambda: f'{o.tolist()} for input {x.tolist()} bound {bound}')
   norm_out = float(np.sqrt(np.sum(o * o)))
@@ -721,7 +747,7 @@ def mixed_dtypes(draw, spec, clients):
 def mean_case(draw, tier, api):
   spec = draw(tree_spec(tier))
   n = draw_n(draw, tier)
-  wkind = draw(st.sampled_from(['float', 'float', 'int', 'np32', 'jax32']))
+  wkind = draw(st.sampled_from(['float', 'float', 'int', 'np32', 'jax32', 'np0d']))
   has_f16 = any(l['dtype'] == 'f16' for l in spec_leaves(spec))
   weights = draw_weights(draw, n, wkind, wide=(not has_f16 and wkind != 'int'))
   vals = draw_clients_values(draw, spec, n, MEAN_ELEMS)
@@ -770,16 +796,26 @@ def clip_case(draw, tier):
   spec = draw(tree_spec(tier))
   ls = spec_leaves(spec)
   has_f16 = any(l['dtype'] == 'f16' for l in ls)
+  f32s = [l for l in ls if l['dtype'] == 'f32']
+  if f32s and not has_f16 and draw(st.integers(0, 4)) == 0:
+    # one float leaf is a complex64 leaf instead (spec_leaves returns the spec's
+    # own dicts, so this edits the spec)
+    f32s[draw(st.integers(0, len(f32s) - 1))]['dtype'] = 'c64'
   elems = {'f32': f32_elements(30), 'f16': F16_ELEMENTS,
            'i32': i32_elements(24 if has_f16 else 4096)}
   zero_tree = draw(st.integers(0, 19)) == 7  # ~5 %: Hypothesis over-samples the endpoints
+
+  def nvals(l):
+    size = int(np.prod(l['shape'])) if l['shape'] else 1
+    return 2 * size if l['dtype'] == 'c64' else size
+
   if zero_tree:
     leaves = []
     for l in ls:
-      size = int(np.prod(l['shape'])) if l['shape'] else 1
-      leaves.append([0 if l['dtype'] == 'i32' else 0.0] * size)
+      leaves.append([0 if l['dtype'] == 'i32' else 0.0] * nvals(l))
   else:
-    leaves = [leaf_values(draw, l, elems) for l in ls]
+    leaves = [draw(st.lists(elems['f32'], min_size=nvals(l), max_size=nvals(l)))
+              if l['dtype'] == 'c64' else leaf_values(draw, l, elems) for l in ls]
     if not any(any(v) for v in leaves):
       # Hypothesis likes all-zero payloads; zero trees have their own class.
       for l, v in zip(ls, leaves):
